@@ -46,10 +46,13 @@
 package coregex
 
 import (
+	"bytes"
 	"io"
 	"iter"
 	"regexp/syntax"
 	"strings"
+	"unicode"
+	"unicode/utf8"
 	"unsafe"
 
 	"github.com/coregx/coregex/meta"
@@ -955,48 +958,97 @@ func (r *Regex) ExpandString(dst []byte, template string, src string, match []in
 // append, it replaces $1, $2, etc. with the corresponding submatch.
 // $0 is the entire match.
 func (r *Regex) expand(dst []byte, template []byte, src []byte, match []int) []byte {
+	for len(template) > 0 {
+		i := bytes.IndexByte(template, '$')
+		if i < 0 {
+			break
+		}
+		dst = append(dst, template[:i]...)
+		template = template[i:]
+		if len(template) > 1 && template[1] == '$' {
+			// $$ -> $
+			dst = append(dst, '$')
+			template = template[2:]
+			continue
+		}
+		name, num, rest, ok := extractTemplateName(template)
+		if !ok {
+			// Malformed: treat $ as raw text.
+			dst = append(dst, '$')
+			template = template[1:]
+			continue
+		}
+		template = rest
+		if num >= 0 {
+			if 2*num+1 < len(match) && match[2*num] >= 0 {
+				dst = append(dst, src[match[2*num]:match[2*num+1]]...)
+			}
+		} else {
+			for i, namei := range r.SubexpNames() {
+				if name == namei && 2*i+1 < len(match) && match[2*i] >= 0 {
+					dst = append(dst, src[match[2*i]:match[2*i+1]]...)
+					break
+				}
+			}
+		}
+	}
+	dst = append(dst, template...)
+	return dst
+}
+
+// extractTemplateName returns the name from a leading "$name" or "${name}" in
+// template, following the rules of regexp.Expand: name is a non-empty sequence
+// of letters, digits and underscores, taken as long as possible; a purely
+// numeric name is returned as num (otherwise num is -1).
+func extractTemplateName(template []byte) (name string, num int, rest []byte, ok bool) {
+	if len(template) < 2 || template[0] != '$' {
+		return
+	}
+	brace := false
+	if template[1] == '{' {
+		brace = true
+		template = template[2:]
+	} else {
+		template = template[1:]
+	}
 	i := 0
 	for i < len(template) {
-		if template[i] != '$' || i+1 >= len(template) {
-			dst = append(dst, template[i])
-			i++
-			continue
+		rune, size := utf8.DecodeRune(template[i:])
+		if !unicode.IsLetter(rune) && !unicode.IsDigit(rune) && rune != '_' {
+			break
 		}
-
-		// Handle $ escape sequences
-		next := template[i+1]
-
-		// Check for $0-$9
-		if next >= '0' && next <= '9' {
-			groupNum := int(next - '0')
-			// Each group occupies 2 indices in match array
-			groupIdx := groupNum * 2
-			if groupIdx+1 < len(match) && match[groupIdx] >= 0 {
-				dst = append(dst, src[match[groupIdx]:match[groupIdx+1]]...)
-			}
-			i += 2
-			continue
+		i += size
+	}
+	if i == 0 {
+		// empty name is not okay
+		return
+	}
+	name = string(template[:i])
+	if brace {
+		if i >= len(template) || template[i] != '}' {
+			// missing closing brace
+			return
 		}
-
-		// Check for ${name} - not supported yet, treat as literal
-		if next == '{' {
-			dst = append(dst, '$')
-			i++
-			continue
-		}
-
-		// $$ -> $
-		if next == '$' {
-			dst = append(dst, '$')
-			i += 2
-			continue
-		}
-
-		// Unknown $ escape, treat as literal
-		dst = append(dst, '$')
 		i++
 	}
-	return dst
+
+	// Parse number.
+	num = 0
+	for i := 0; i < len(name); i++ {
+		if name[i] < '0' || '9' < name[i] || num >= 1e8 {
+			num = -1
+			break
+		}
+		num = num*10 + int(name[i]) - '0'
+	}
+	// Disallow leading zeros.
+	if name[0] == '0' && len(name) > 1 {
+		num = -1
+	}
+
+	rest = template[i:]
+	ok = true
+	return
 }
 
 // ReplaceAll returns a copy of src, replacing matches of the pattern
